@@ -221,6 +221,65 @@ func musPunctuationTrees() [][]musNode {
 	return trees
 }
 
+// musReservedWords: words that other template dialects give a meaning to. In this dialect a name is a name: `if` and
+// `unless` are section words only right after '#' / '/'; everywhere else, and all the others everywhere, they are
+// ordinary variable and section names.
+var musReservedWords = []string{"else", "this", "end", "each", "with", "if", "unless", "not", "true", "false", "null", "in"}
+
+// musReservedTrees: every reserved word in lower, upper and capitalised spelling as a plain variable (both spacings),
+// an escaped variable, a section name and an inverted-section name - at top level, inside the body of a section and
+// inside the body of an inverted section (between text, so that a body cut in two would show).
+func musReservedTrees() [][]musNode {
+	var trees [][]musNode
+	k := 0
+	for _, w := range musReservedWords {
+		for _, name := range []string{w, strings.ToUpper(w), strings.ToUpper(w[:1]) + w[1:]} {
+			uses := []musNode{
+				{kind: "var", text: name}, {kind: "var", text: name, spelling: 1}, {kind: "esc", text: name},
+			}
+			if !strings.EqualFold(w, "if") && !strings.EqualFold(w, "unless") || name == w {
+				// (whether `#IF x` spells a section word is not fixed by the statement: upper-case if / unless stay variables)
+				uses = append(uses,
+					musNode{kind: "section", text: name, spelling: k % 8, body: []musNode{{kind: "text", text: "in"}}},
+					musNode{kind: "section", text: name, inverted: true, spelling: (k + 3) % 8, body: []musNode{{kind: "text", text: "out"}, {kind: "var", text: name}}})
+			}
+			for _, u := range uses {
+				k++
+				l, r := musNode{kind: "text", text: "<"}, musNode{kind: "text", text: ">"}
+				trees = append(trees,
+					[]musNode{l, u, r},
+					[]musNode{{kind: "section", text: "a", spelling: k % 8, body: []musNode{l, u, r}}},
+					[]musNode{{kind: "section", text: "b", inverted: true, spelling: (k + 1) % 8, body: []musNode{l, u, r}}},
+					[]musNode{{kind: "section", text: "a", spelling: (k + 2) % 8, body: []musNode{{kind: "section", text: "b", inverted: true, spelling: k % 4, body: []musNode{{kind: "var", text: "a"}, u, {kind: "text", text: "|"}}}, u}}})
+			}
+		}
+	}
+	return trees
+}
+
+// musReservedSets: variable maps for the reserved-word family: the words absent, present (keys in lower and in upper
+// case, each word with a value of its own), present and empty.
+func musReservedSets() []map[string]string {
+	lower, upper, empty := map[string]string{"a": "v"}, map[string]string{"a": "v", "b": "w"}, map[string]string{"a": "v"}
+	for _, w := range musReservedWords {
+		lower[w] = "(" + w + ")"
+		upper[strings.ToUpper(w)] = "[" + w + "/\"]"
+		empty[w] = ""
+	}
+	return []map[string]string{{}, {"a": "v"}, lower, upper, empty, {"b": "w", "else": "E"}}
+}
+
+func varSets7() map[string]string { return map[string]string{"a": "<&\"/\\\n\t>", "if": "\\/"} }
+
+func musHasEscaped(ns []musNode) bool {
+	for _, n := range ns {
+		if n.kind == "esc" || musHasEscaped(n.body) {
+			return true
+		}
+	}
+	return false
+}
+
 // musDefaultMembers: templates naming one variable in lower, upper and mixed case (as a variable, an escaped
 // variable, a section and an inverted section, alone, twice in two spellings, next to another variable) x default
 // variables whose key spells the name in each of the three ways, with a value, an empty value and a value that
@@ -280,6 +339,17 @@ func (c *Ctx) musxRun() map[string]*simpleVerdict {
 		trees = append(trees, musLiteralTrees(3)...)
 	}
 	trees = append(trees, musPunctuationTrees()...)
+	// names that other dialects reserve, with variable maps of their own
+	nReserved := len(trees)
+	trees = append(trees, musReservedTrees()...)
+	reservedSets := musReservedSets()
+	// values in which several characters need escaping, the backslash among them: whatever order the escapes are
+	// applied in internally, the escaped value is the JSON-style one - every rendering of a template with an escaped
+	// variable is repeated under the other iteration orders of maps (Go fixes none) and must not differ
+	escSets := []map[string]string{{"a": "\\\"/", "b": "\t\\\n", "Ab": "\r\"\\n", "else": "/\\"}, varSets7(), {"B": "x\r\b\f\\", "a": "ж\"", "AB": "\\"}}
+	if c.Tier != "thorough" {
+		escSets = escSets[:2]
+	}
 	varSets := []map[string]string{
 		{}, {"a": "v"}, {"a": ""}, {"b": "w"}, {"a": "v", "b": "w"}, {"a": "v", "b": ""}, {"A": "Up"}, {"a": "<&\"/\\\n\t>"}, {"B": "x\r\b\f", "a": "ж"}, {"a": "{{b}}", "b": "1"}, {"x_1": "X", "if1": "I"}, {"if": "yes", "unless": ""}, {"unless": "u", "a": "v"}, {"USERNAME": "U1", "aB": "v2"}, {"Username": "U2", "AB": "v3"}, {"username": "U3", "ab": "v4"},
 		{"a": " ", "b": "\n"}, {"a": "\t\r\n", "B": "\u00a0"}, {"a": "\u2003", "b": " x "},
@@ -364,6 +434,9 @@ func (c *Ctx) musxRun() map[string]*simpleVerdict {
 				if i >= nFull {
 					sets = varSets[:2]
 				}
+				if i >= nReserved {
+					sets = reservedSets
+				}
 				for vi, vars := range sets {
 					m.steps = 0
 					vr.runs++
@@ -410,14 +483,44 @@ func (c *Ctx) musxRun() map[string]*simpleVerdict {
 				// all the other sets, give the same text, and nothing reachable from the instance has changed
 				for _, vi := range []int{1, 4, 0} {
 					first, ok := firstResults[vi]
-					if !ok {
+					if !ok || vi >= len(sets) {
 						continue
 					}
 					m.steps = 0
 					vp.runs++
-					r, out := m.Call(eval, tmpl, mkMap(varSets[vi]))
+					r, out := m.Call(eval, tmpl, mkMap(sets[vi]))
 					if out.kind == "ok" && mRender(r) != first && vp.bad == "" {
-						vp.bad = fmt.Sprintf("%s with variables %q renders %s the first time and %s after renderings with other variable sets", show, varSets[vi], first, mRender(r))
+						vp.bad = fmt.Sprintf("%s with variables %q renders %s the first time and %s after renderings with other variable sets", show, sets[vi], first, mRender(r))
+					}
+				}
+				// ... and whatever order maps are iterated in: Go fixes none, so the machine's order (insertion) is one of
+				// many a host run may take; templates with escaped variables are rendered again with every `range` over a
+				// map reversed and rotated by one - equal inputs, equal result, the reference one
+				if musHasEscaped(trees[i]) {
+					for _, vars := range escSets {
+						var texts [3]string
+						for ord := 0; ord < 3; ord++ {
+							m.steps = 0
+							m.mapOrder = ord
+							r, out := m.Call(eval, tmpl, mkMap(vars))
+							m.mapOrder = 0
+							texts[ord] = "?"
+							if tp, ok := r.(mTuple); ok && out.kind == "ok" && len(tp) == 2 {
+								if _, isNil := tp[1].(mNilT); isNil {
+									if got, ok := tp[0].(string); ok {
+										texts[ord] = got
+									}
+								}
+							} else if out.kind == "panic" && vp.bad == "" {
+								vp.bad = fmt.Sprintf("%s with variables %q: rendering panics when maps are iterated in another order: %s", show, vars, out.why)
+							}
+						}
+						vp.runs++
+						for ord := 1; ord < 3; ord++ {
+							if texts[0] != "?" && texts[ord] != "?" && texts[ord] != texts[0] && vp.bad == "" {
+								vp.bad = fmt.Sprintf("%s with variables %q renders %q when every map is iterated in insertion order and %q when iterated %s; Go fixes no iteration order for maps, so evaluating again with equal inputs does not return an equal result (the JSON-style escaped rendering is %q)", show, vars, texts[0], texts[ord], map[int]string{1: "in the reverse order", 2: "from its second entry on, the first one last"}[ord], musRender(trees[i], vars))
+							}
+						}
 					}
 				}
 				// an instance with default variables: a variable map given to the rendering is used alone - also an
@@ -612,7 +715,7 @@ func (c *Ctx) musxRun() map[string]*simpleVerdict {
 
 func init() {
 	register(&Rule{ID: "MUS.reference", Floor: 3,
-		Doc: "the template engine evaluated abstractly (NewMustacheTemplate, SetTemplate, EvaluateWithVariables) on templates printed from generated syntax trees (text with braces/quotes, variables, escaped variables, comments, sections and inverted sections in 8 spellings each, nested, empty, adjacent) × 19 variable maps (present, empty, white-space-only, absent, other key case, values needing escapes): the rendering equals the statement's semantics, is the same when repeated after other variable sets and leaves the instance unchanged; literal text exhaustively over {x, '{', '}', space} up to length 3 (4 in the thorough tier) alone, before and after a tag, between tags and as a section body is rendered verbatim (single braces at the start, in the middle and at the very end), and so is text whose last character before a tag or first character after one is a backslash, '$', '#', '/', '^', '!', a quote, '&' or '.' (variable, escaped variable, comment, opening and closing tags of sections and inverted sections), the tags staying tags; instances with default variables assigned before or after the template (keys in lower, upper and mixed case against the template's spelling), rendered with Evaluate() under both iteration orders of the map, follow the same semantics; 39 listed malformed templates and a generated family (tags never closed: cut off after the opening braces, after each operator including the comment's '!', after the name, after blanks, after half a closer, double and triple braces; mismatched brace counts; unclosed and unopened sections; each alone and after text and a complete tag) are rejected, also when submitted twice",
+		Doc: "the template engine evaluated abstractly (NewMustacheTemplate, SetTemplate, EvaluateWithVariables) on templates printed from generated syntax trees (text with braces/quotes, variables, escaped variables, comments, sections and inverted sections in 8 spellings each, nested, empty, adjacent) × 19 variable maps (present, empty, white-space-only, absent, other key case, values needing escapes): the rendering equals the statement's semantics, is the same when repeated after other variable sets and leaves the instance unchanged; literal text exhaustively over {x, '{', '}', space} up to length 3 (4 in the thorough tier) alone, before and after a tag, between tags and as a section body is rendered verbatim (single braces at the start, in the middle and at the very end), and so is text whose last character before a tag or first character after one is a backslash, '$', '#', '/', '^', '!', a quote, '&' or '.' (variable, escaped variable, comment, opening and closing tags of sections and inverted sections), the tags staying tags; instances with default variables assigned before or after the template (keys in lower, upper and mixed case against the template's spelling), rendered with Evaluate() under both iteration orders of the map, follow the same semantics; 39 listed malformed templates and a generated family (tags never closed: cut off after the opening braces, after each operator including the comment's '!', after the name, after blanks, after half a closer, double and triple braces; mismatched brace counts; unclosed and unopened sections; each alone and after text and a complete tag) are rejected, also when submitted twice; twelve words that other dialects reserve (else, this, end, each, with, if, unless, not, true, false, null, in) in three letter cases are ordinary names as variables, escaped variables and section names at top level and inside sections and inverted sections; every template with an escaped variable is rendered again with every range over a map reversed and rotated by one (Go fixes no order) on values in which several characters need escaping, and must give the same text",
 		Run: func(c *Ctx) []*Obligation {
 			o := newObl("MUS.reference")
 			res := c.musxRun()
